@@ -198,6 +198,10 @@ func ParseData(data []byte) (Config, error) {
 					return Config{}, fmt.Errorf("[%s] %s: mapping type not supported: %s", name, evcodeRaw, analog.Type)
 				}
 
+				if analog.ChannelOffset < 0 || analog.ChannelOffset > 15 || analog.ChannelOffsetNegative < 0 || analog.ChannelOffsetNegative > 15 {
+					return Config{}, fmt.Errorf("[%s] %s: channel offset outside of 0-15 range", name, evcodeRaw)
+				}
+
 				switch mappingType {
 				case AnalogCC:
 					var bidirectional bool
